@@ -387,7 +387,16 @@ impl ParquetMetaDataPushDecoder {
 
                 DecodeState::ReadingMetadata(footer_tail) => {
                     let metadata_len: u64 = footer_tail.metadata_length() as u64;
-                    let metadata_start = file_len - footer_len - metadata_len;
+                    // the length comes from the file: it must fit in front of the footer
+                    let metadata_start = file_len
+                        .checked_sub(footer_len)
+                        .and_then(|end| end.checked_sub(metadata_len))
+                        .ok_or_else(|| {
+                            ParquetError::EOF(format!(
+                                "Parquet file too small. Size is {file_len} but need {}",
+                                metadata_len.saturating_add(footer_len)
+                            ))
+                        })?;
                     let metadata_end = metadata_start + metadata_len;
                     let metadata_range = metadata_start..metadata_end;
 
